@@ -481,7 +481,10 @@ func TestVerif_C07_ExpiryEndToEnd(t *testing.T) {
 			endMs := run.EpochMs + r.EndUs/1000
 			clientExp := startMs + int64(r.TTLMs)
 			if r.Hit {
-				if r.PXAT <= startMs {
+				// (only entries that an earlier call populated: a reply fetched inside this very call is also reported as served
+				// from the cache - duplicates of a batch, the elements of a fetched MGET - and with a server PTTL of 0 it expires
+				// in the millisecond it arrives)
+				if r.PXAT <= startMs && fetched[r.Key][r.PXAT] && fetchedFrom[r.Key][r.PXAT] < r.StartUs {
 					c.Fail(rt, "C07.no-hit-after-expiry", fmt.Sprintf("%s was served as a hit at +%dms although its entry expires at +%dms", where, startMs-run.EpochMs, r.PXAT-run.EpochMs), plan)
 				}
 				if r.PXAT-startMs <= 2 {
